@@ -95,7 +95,7 @@ func (g *G) feasible(kind string, v *view, who int) bool {
 		return ok
 	case "authz.revoke":
 		for _, x := range v.grants {
-			if who < 0 || x.granter == who {
+			if x.granter >= 0 && (who < 0 || x.granter == who) {
 				return true
 			}
 		}
@@ -132,7 +132,7 @@ func (g *G) badAddr() string {
 
 // payer picks an account able to pay fees and deposits (falls back to any account).
 func (g *G) payer(v *view, who int) int {
-	if who >= 0 {
+	if who >= 0 || who <= -10 { // a scenario account, or a long address acting through a grant
 		return who
 	}
 	if len(v.locked) > 0 && g.chance(g.w.lockedPct) {
@@ -206,10 +206,10 @@ func (g *G) unknownID(next uint64) string {
 func (g *G) pickStream(v *view, who int, role byte) (streamInfo, bool) {
 	var c []streamInfo
 	for _, s := range v.streams {
-		if s.r == -1 || s.s < 0 || (s.r < 0 && role == 'r') { // the long addresses receive, and sign nothing
+		if s.r == -1 || s.s == -1 || (s.r < 0 && role == 'r') { // the long addresses receive; they send only through a grant
 			continue
 		}
-		if who < 0 || (role == 'r' && s.r == who) || (role == 's' && s.s == who) {
+		if (who == -1 && s.s >= 0) || (role == 'r' && s.r == who) || (role == 's' && s.s == who) {
 			c = append(c, s)
 		}
 	}
@@ -371,6 +371,8 @@ func (g *G) msg(kind string, v *view, aware bool, who int, depth int) script.Msg
 				h = 1
 			case x < 27:
 				h = maxU64
+			case x < 33: // sparse heights: far more than any in-state limit above the last one
+				h = it.last + []uint64{1000, 50001, 1 << 32, 1 << 62}[g.rng.Intn(4)]
 			}
 			if !aware && g.chance(30) {
 				h = []uint64{0, 1, maxU64, it.last}[g.rng.Intn(4)]
@@ -399,7 +401,7 @@ func (g *G) msg(kind string, v *view, aware bool, who int, depth int) script.Msg
 		s := g.payer(v, who)
 		r := g.other(s)
 		if g.chance(g.w.longPct) {
-			r = -10 - g.rng.Intn(4) // a receiver whose address is not 20 bytes long (or shares its first 20 bytes with another)
+			r = -10 - g.rng.Intn(5) // a receiver whose address is not 20 bytes long (or shares its first 20 bytes with another)
 		}
 		if aware { // prefer a pair without a stream
 			for try := 0; try < 4 && g.hasStream(v, r, s); try++ {
@@ -443,10 +445,10 @@ func (g *G) msg(kind string, v *view, aware bool, who int, depth int) script.Msg
 		st, ok := g.pickStream(v, who, role)
 		if !ok || !aware {
 			me := who
-			if me < 0 {
+			if me == -1 {
 				me = g.liveAcct(v, aware)
 			}
-			if x, found := g.pickStream(v, -1, role); found && who < 0 && g.chance(50) {
+			if x, found := g.pickStream(v, -1, role); found && who == -1 && g.chance(50) {
 				st = x // existing stream, but the wrong party acts
 				st.r, st.s = x.s, x.r
 			} else if st = (streamInfo{r: g.other(me), s: me, denom: "nund", rate: 1}); role == 'r' {
@@ -491,7 +493,7 @@ func (g *G) msg(kind string, v *view, aware bool, who int, depth int) script.Msg
 		f := g.payer(v, who)
 		ttok := g.acct(g.other(f))
 		if g.chance(g.w.longPct / 2) {
-			ttok = g.acct(-10 - g.rng.Intn(4))
+			ttok = g.acct(-10 - g.rng.Intn(5))
 		}
 		if g.chance(8) {
 			ttok = "Mgov"
@@ -556,7 +558,7 @@ func (g *G) msg(kind string, v *view, aware bool, who int, depth int) script.Msg
 	case "authz.revoke":
 		var mine []grant
 		for _, x := range v.grants {
-			if who < 0 || x.granter == who {
+			if x.granter >= 0 && (who < 0 || x.granter == who) { // the grants of the long addresses stay: nobody can sign for them
 				mine = append(mine, x)
 			}
 		}
